@@ -1,9 +1,7 @@
 SPECIFICATION Spec
-CONSTANTS MaxRuns = 3 MaxTouch = 99
-  Scens <- ScenPlain1
-  Settings <- SettingsAll
+CONSTANTS
+  Plans <- PlansQuickMC
   CreatedSetsChanged = TRUE
-  Reuses = {FALSE, TRUE}
   AutoReload = TRUE
   KeepHistory = FALSE
 VIEW view
